@@ -12,6 +12,7 @@ import numpy as np
 
 import common
 import gen
+import c09_seq as SEQ
 from common import w_cells, w_date, canon_cell, call
 from bermuda import Cell, CumulativeCell, IncrementalCell, Metadata, Triangle
 
@@ -239,7 +240,8 @@ def kwargs_of(c):
         kw["period_origin"] = c["porigin"]
     if c["eorigin"] is not None:
         kw["eval_origin"] = c["eorigin"]
-    kw["summarize_premium"] = c["prem"]
+    if not c["prem"] or c.get("explicit_prem"):
+        kw["summarize_premium"] = c["prem"]          # the default (True) is not always passed
     return kw
 
 
@@ -255,6 +257,29 @@ def dump(res):
     return {"ok": w_cells(v.cells)} if st == "ok" else {"err": v}
 
 
+def prime(rng, tri):
+    """(b) priming: aggregate / summarize on ANOTHER input with other options, and the same triangle another way"""
+    d = datetime.date
+    m1, m2 = Metadata(details={"k": 1}), Metadata(details={"k": 2})
+    arr = lambda: np.array([rng.randrange(1, 9) for _ in range(3)], dtype=np.float64)  # noqa: E731
+    cells = []
+    for m in (m1, m2):
+        for q in range(6):
+            ps = gen.add_months_int(d(2001, 1, 1), 3 * q)
+            pe = gen.add_months_int(ps, 2, end=True)
+            cells.append(CumulativeCell(ps, pe, d(2003, 12, 31), {"paid_loss": arr(), "earned_premium": 10.0 + q,
+                                                               "mystery": 1.5}, m))
+    t = Triangle(cells)
+    keep = ["paid_loss", "earned_premium"]
+    call(lambda: t.select(keep).aggregate(period_resolution=(6, "months"), period_origin=d(2000, 6, 30),
+                                          summarize_premium=rng.random() < 0.5))
+    call(lambda: t.select(keep).aggregate(period_resolution=(3, "month"), period_origin=d(2000, 1, 31)))
+    call(lambda: t.select(keep).aggregate(eval_resolution=(1, "year"), eval_origin=d(2000, 2, 29)))
+    call(lambda: t.summarize(summary_fns={"mystery": lambda vd: max(v for v in vd["mystery"] if v is not None),
+                                          "paid_loss": lambda vd: 0}))
+    call(lambda: tri.aggregate(period_resolution=(1, "year")))
+
+
 def correspondence(ctx):
     rng = ctx.rng
     n = 30000 if ctx.thorough else 500
@@ -264,11 +289,43 @@ def correspondence(ctx):
         st, tri = call(Triangle, c["cells"])
         if st != "ok" or len(tri) == 0:
             continue
+        c["explicit_prem"] = rng.random() < 0.3
         kw = kwargs_of(c)
-        impl = dump(call(lambda: tri.aggregate(**kw)))
-        case = {k: v for k, v in request(c, w_cells(tri.cells), impl).items() if k != "impl"}
-        reqs.append(request(c, w_cells(tri.cells), impl))
+        seq = rng.random() < 0.3
+        pre = w_cells(tri.cells)                      # the input as it is BEFORE any call
+        if seq:
+            acc_in = SEQ.read_accessors(tri)          # (c) cached accessors of the input, read before the call
+            prime(rng, tri)                           # (b) other calls in the same process first
+        res = call(lambda: tri.aggregate(**kw))
+        impl = dump(res)
+        case = {k: v for k, v in request(c, pre, impl).items() if k != "impl"}
+        reqs.append(request(c, pre, impl))
         info.append((c, case, impl, "direct"))
+        if w_cells(tri.cells) != pre:
+            ctx.fail("aggregate changed its INPUT triangle", case, {"after": w_cells(tri.cells)[:4]})
+        if seq:
+            ctx.count("sequence")
+            if res[0] == "ok":
+                bad = SEQ.accessors_consistent(res[1])
+                if bad:
+                    ctx.fail(f"accessors of the aggregated triangle disagree with its cells: {bad}", case, {"impl": impl})
+            if SEQ.read_accessors(tri) != acc_in:
+                ctx.fail("accessors of the input triangle changed across aggregate", case)
+            # (a) spoil the first result in place, optionally aggregate the same triangle another way, call again
+            if res[0] == "ok" and SEQ.mutate_result(res[1], rng, source=tri):
+                ctx.count("result-shares-objects-with-input")
+            if rng.random() < 0.5:
+                call(lambda: tri.aggregate(period_resolution=rng.choice([(6, "month"), (1, "year"), (14, "days")]),
+                                           eval_resolution=rng.choice([None, (1, "year")]),
+                                           period_origin=datetime.date(1999, rng.randrange(1, 13), 28)))
+            impl2 = dump(call(lambda: tri.aggregate(**kw)))
+            same = (("err" in impl2) == ("err" in impl)) and (
+                impl2.get("err") == impl.get("err") if "err" in impl else canon(impl2["ok"]) == canon(impl["ok"]))
+            if not same:
+                ctx.fail("a second aggregate call on the same triangle with the same arguments gives another result",
+                         case, {"first": impl, "second": impl2})
+            if w_cells(tri.cells) != pre:
+                ctx.fail("aggregate changed its INPUT triangle (second call)", case, {"after": w_cells(tri.cells)[:4]})
         ctx.count(f"stream={c['stream']}")
         ctx.count(f"class={c['cls']}")
         ctx.count(f"slices={c['n_slices']}")
@@ -287,8 +344,9 @@ def correspondence(ctx):
             # and the cumulative aggregate is what the Spec is evaluated on
             st2, cum = call(lambda: tri.to_cumulative())
             if st2 == "ok":
+                pre_cum = w_cells(cum.cells)
                 impl_cum = dump(call(lambda: cum.aggregate(**kw)))
-                reqs.append(request(c, w_cells(cum.cells), impl_cum))
+                reqs.append(request(c, pre_cum, impl_cum))
                 case2 = {k: v for k, v in reqs[-1].items() if k != "impl"}
                 info.append((c, case2, impl_cum, "cumulative-of-incremental"))
                 if "ok" in impl_cum:
@@ -341,7 +399,7 @@ if __name__ == "__main__":
              "(period, evaluation-only and both); "
              "the data or the default; day stream — periods of 1/7/14 days, day/week targets (multiples and "
              "non-multiples), origins aligned or anywhere within -60..+90 days, month targets on day data; exotic "
-             "stream — month units from a non-month-end origin (model comparison only). distinct = distinct canonical "
+             "stream — month units from a non-month-end origin (model comparison only). SEQUENCE stream (30% of cases): cached accessors of the input read first, priming calls of summarize / summarize_cell_values / aggregate on another input with custom summary_fns and other options, the call under test with default arguments omitted, input dump compared before/after, accessors of the result compared with a fresh triangle of its cells, the result spoiled in place (arrays zeroed, dicts edited, list reversed; objects shared with the input left alone), optionally a differently configured call, then the same call again with an identical result required. distinct = distinct canonical "
              "input dump; non-trivial = cells were merged/removed or the call raised",
         assumptions=["resolution quantities are positive; the input triangle is not empty",
                      "values are exactly representable (sums exact); NaN-free",
